@@ -254,6 +254,33 @@ func TestVerifC12(t *testing.T) {
 	for _, name := range []string{"empty", "one", "two"} {
 		reqs = append(reqs, zzvDeviations(name, bases[name])...)
 	}
+	if p.Thorough() {
+		// Every pair of single-field deviations of the one-program report, merged key by key:
+		// valid iff both are valid (a don't-care stays a don't-care).
+		devs := zzvDeviations("one", bases["one"])
+		baseObj := map[string]any{}
+		json.Unmarshal(zzvJSON(bases["one"]), &baseObj)
+		for i, a := range devs {
+			for _, b := range devs[i+1:] {
+				var ma, mb map[string]any
+				if json.Unmarshal(a.body, &ma) != nil || json.Unmarshal(b.body, &mb) != nil {
+					continue
+				}
+				merged, ok := zzvMerge(baseObj, ma, mb)
+				if !ok {
+					continue // both change the same field
+				}
+				class := "valid"
+				switch {
+				case a.class == "invalid" || b.class == "invalid":
+					class = "invalid"
+				case a.class == "dontcare" || b.class == "dontcare":
+					class = "dontcare"
+				}
+				reqs = append(reqs, zzvReq{desc: "pair: " + a.desc + " + " + b.desc, method: "POST", path: "/upload/x", body: zzvJSON(merged), class: class})
+			}
+		}
+	}
 	valid := zzvJSON(bases["one"])
 	for _, method := range []string{"GET", "PUT", "HEAD", "DELETE", "PATCH", "post", "OPTIONS"} {
 		for _, path := range []string{"/upload/2023-01-01", "/upload/", "/upload/not-a-date", "/upload/2099-01-01"} {
@@ -389,4 +416,46 @@ func TestVerifC12(t *testing.T) {
 	res.States = res.Evaluations
 	res.Validated = res.Evaluations
 	res.Write()
+}
+
+// zzvMerge applies the top-level changes of a and b (each relative to base) to base. Changes inside
+// Programs[0] are merged one level deeper. It reports false when both change the same field.
+func zzvMerge(base, a, b map[string]any) (map[string]any, bool) {
+	out := map[string]any{}
+	for k, v := range base {
+		out[k] = v
+	}
+	changed := map[string]bool{}
+	apply := func(m map[string]any) bool {
+		keys := map[string]bool{}
+		for k := range base {
+			keys[k] = true
+		}
+		for k := range m {
+			keys[k] = true
+		}
+		for k := range keys {
+			bv, _ := json.Marshal(base[k])
+			mv, _ := json.Marshal(m[k])
+			_, inM := m[k]
+			_, inB := base[k]
+			if string(bv) == string(mv) && inM == inB {
+				continue
+			}
+			if changed[k] {
+				return false
+			}
+			changed[k] = true
+			if inM {
+				out[k] = m[k]
+			} else {
+				delete(out, k)
+			}
+		}
+		return true
+	}
+	if !apply(a) || !apply(b) {
+		return nil, false
+	}
+	return out, true
 }
